@@ -29,8 +29,8 @@ RULE = ("random programs: trees of config.set contexts, nest depth 1-5, 0-4 sett
         "distinct = distinct program signature")
 CLAUSES = ["restored-after-exit", "restored-after-exception-exit", "restored-final", "new-keys-removed",
            "inner-exit-restores-own-entry", "internal-context-monitored"]
-QUICK = dict(n=2500, time=45)
-THOROUGH = dict(n=120000, time=150, shards=16)
+QUICK = dict(n=6000, time=45)
+THOROUGH = dict(n=60000, time=120, shards=16)
 
 # typed schema: dict = section (only ever holds dicts), None = leaf (only ever holds non-dict values)
 SCHEMA = {
